@@ -26,6 +26,7 @@ RULES_DOC["X4"] = common.X4_DOC
 RULES_DOC["R7"] = "= C06.R1/R3/R4: a unit that migrates inside a switch is counted on the right pool before and after (the migration target can be joined)"
 RULES_DOC["R8"] = "migrate_to_sched / migrate_to_xstream reject a unit that already is in ANY pool of the target scheduler: the comparison with the unit's pool sits inside a loop over the scheduler's pools (sibling agreement)"
 RULES_DOC["R11"] = "= C16.R5: the id under which the migration record (callback, target pool) is kept in the unit's key table is not handed out to a user key"
+RULES_DOC["R13"] = "who-may-write census of ABTI_thread_attr::f_cb / p_cb_arg: among the attribute setters only ABT_thread_attr_set_callback reaches a store of the callback (a stack-size update that re-runs the attribute initialiser would drop a callback set earlier, and the migration then runs without it)"
 RULES_DOC["R12"] = "= C17.R8: the stream list that ABT_thread_migrate scans for a target is linked completely in both directions on every insertion path"
 RULES_DOC["R10"] = "= C12.R12: the request dispatcher tests REQ_MIGRATE bitwise: a migration request is honoured although a join or cancel request is pending on the same unit"
 RULES_DOC["R9"] = "a migration callback given in the creation attribute is recorded whenever it is non-NULL (its installation depends on the callback pointer only, not on whether the unit is migratable yet -- migratability can be switched on later)"
@@ -413,6 +414,17 @@ def rule_R9(P, rep):
                "the callback is recorded only if %s" % gov, loc=F.loc(i), site="ythread_create/attr-callback")
 
 
+def rule_R13(P, rep):
+    """Who may (transitively) write the migration callback of a thread attribute: creation / duplication of an
+    attribute and ABT_thread_attr_set_callback.  Another attribute setter that resets it silently drops the callback."""
+    ws = sorted(x.split(":")[-1] for x in P.may_write("ABTI_thread_attr", "f_cb"))
+    rep.need("ABT_thread_attr_set_callback" in ws, "ABT_thread_attr_set_callback does not write f_cb")
+    setters = [w for w in ws if re.match(r"^(ABT_thread_attr_set_|thread_attr_set_|ABT_thread_attr_get_)", w)]
+    bad = [w for w in setters if w != "ABT_thread_attr_set_callback"]
+    rep.ob("R13", "only ABT_thread_attr_set_callback (and attribute creation) writes ABTI_thread_attr::f_cb", not bad,
+           "%s may overwrite the migration callback stored in the attribute" % bad, loc="src/thread_attr.c", site="attr-cb-writers")
+
+
 def run(P, rep, tier):
     common.rule_X9(P, rep, fields=[('ABTI_thread', 'request')])
     common.rule_X8(P, rep)
@@ -433,3 +445,4 @@ def run(P, rep, tier):
     from . import C16, C17
     common.borrow(rep, P, C16.rule_R5, "R11")
     common.borrow(rep, P, C17.rule_R8, "R12")
+    rule_R13(P, rep)
